@@ -511,9 +511,17 @@ theorem C08_parse_follow (v : VExpr) (rest : List Char) (hw : wfVExpr v = true) 
 
 /-- … and with declared display precisions: the numbers come back padded as printed -/
 theorem C08_parse_prec (p : String → Nat) (v : VExpr) (rest : List Char) (hw : wfVExpr (rescaleV p v) = true)
-    (hp : plainV (rescaleV p v) = true) (hf : follow v rest = true) :
+    (hp : plainV v = true) (hf : follow v rest = true) :
     parseValueExpr (printVExpr p v ++ rest) = .ok (rescaleV p v) (afterV v rest) :=
-  parse_print_prec p v rest hw hp hf
+  parse_print_prec' p v rest hw hp hf
+
+/-- the condition on the continuation is exactly what the parser needs: the tree comes back and the parser stops at
+the continuation (less the blanks eaten after a number without commodity) if and only if the continuation does not
+extend the last token (`follow`: nothing after `)`; no commodity character after a commodity; after a bare number no
+digit, comma or point, and no commodity character after blanks) -/
+theorem C08_parse_iff (v : VExpr) (rest : List Char) (hw : wfVExpr v = true) (hp : plainV v = true) :
+    parseValueExpr (printVExpr noPrec v ++ rest) = .ok v (afterV v rest) ↔ follow v rest = true :=
+  parse_print_iff v rest hw hp
 
 /-- the printed text determines the nesting: two printable stratified trees with the same text are equal -/
 theorem C08_parse_unambiguous (a b : ValueE) (ha : a.ok = true) (hb : b.ok = true)
@@ -570,6 +578,15 @@ example : parseValueExpr "-12,345.67 JPY @ 1".toList = .ok exAmt.toVExpr " @ 1".
   have hp : printVExpr noPrec exAmt.toVExpr = "-12,345.67 JPY".toList := by decide +kernel
   rw [hp] at h
   exact h
+
+/-- `C08_parse_prec`: `1.5 USD` with two declared places is printed `1.50 USD` and read back with scale 2 -/
+example : rescaleV (fun _ => 2) (.amt ⟨false, 15, 1, none⟩ "USD") = .amt ⟨false, 150, 2, none⟩ "USD" ∧
+    printVExpr (fun _ => 2) (.amt ⟨false, 15, 1, none⟩ "USD") = "1.50 USD".toList ∧
+    Unparse.wfNumber ⟨false, 150, 2, none⟩ = true := by decide +kernel
+/-- `C08_parse_iff`, the failing side: `1` followed by `2`, `1 A` followed by `B` -/
+example : follow (.amt ⟨false, 1, 0, none⟩ "") ['2'] = false ∧ follow (.amt ⟨false, 1, 0, none⟩ "A") ['B'] = false ∧
+    parseValueExpr "12".toList = .ok (.amt ⟨false, 12, 0, none⟩ "") [] ∧
+    parseValueExpr "1 AB".toList = .ok (.amt ⟨false, 1, 0, none⟩ "AB") [] := by decide +kernel
 
 /-- the hypotheses of `C08_parse_tree` / `C08_parse_follow` on the parser's tree type: `(-2 * -(3 A) / 4)` -/
 def exTree : VExpr :=
